@@ -19,6 +19,9 @@ type ScriptCase struct {
 		Mon   bool     `json:"mon"`
 		Kind  string   `json:"kind"`
 		Edges [][2]int `json:"edges"`
+		// algorithm options of this call ("" = the default): the life-cycle of the monitor must not depend on them
+		P1, P2, P4, P5 string
+		Sized          bool // fixed node size 6 x 4, NodeSpacing 2, LayerSpacing 4 (the spline router needs positive sizes)
 	} `json:"script"`
 }
 
@@ -91,6 +94,13 @@ func runScript(c *ScriptCase, w writer) {
 			harnessErr("unknown script kind %q", st.Kind)
 		}
 		var opts []autog.Option
+		if st.P1 != "" || st.P2 != "" || st.P4 != "" || st.P5 != "" || st.Sized {
+			oc := Case{P1: st.P1, P2: st.P2, P4: st.P4, P5: st.P5, Ns: -1, Ls: -1, Thor: -1}
+			if st.Sized {
+				oc.Ns, oc.Ls, oc.Fixed = 2, 4, []int{6, 4}
+			}
+			_, _, opts = buildOptions(&oc, &recorder{})
+		}
 		if st.Mon {
 			opts = append(opts, autog.WithMonitor(scriptMon{id: cur, log: &events, cur: &cur}))
 		}
